@@ -9,6 +9,7 @@ import (
 	"os"
 	"path/filepath"
 	"sort"
+	"strconv"
 	"strings"
 
 	"golang.org/x/tools/go/packages"
@@ -50,6 +51,14 @@ type LoopUnit struct {
 	Params []stubParam
 }
 
+type AssertUnit struct {
+	C      *AssertContract
+	Stmt   ast.Stmt
+	Fn     *ssa.Function
+	Params []stubParam
+	Index  int
+}
+
 type stubParam struct {
 	Name  string
 	Kind  string // "recv","param","result","old","local"
@@ -70,6 +79,7 @@ type FuncUnit struct {
 	ResNames []string
 	Loops    map[int]*LoopUnit // by ordinal
 	AstLoops []ast.Stmt
+	Asserts  []*AssertUnit
 	id       string
 	IfaceT   *types.Named // for iface contracts
 	IfaceM   string
@@ -276,6 +286,8 @@ func iff(a, b bool) bool { return a == b }
 func forall(lo, hi int, f func(i int) bool) bool { panic("spec") }
 func exists(lo, hi int, f func(i int) bool) bool { panic("spec") }
 func held(m interface{}) bool { panic("spec") }
+// ghost(name, obj): ghost integer attribute "name" of object obj (a heap class "g:<name>")
+func ghost(name string, obj interface{}) int { panic("spec") }
 func LE16(b []byte, i int) uint16 { return uint16(b[i]) | uint16(b[i+1])<<8 }
 func LE32(b []byte, i int) uint32 {
 	return uint32(b[i]) | uint32(b[i+1])<<8 | uint32(b[i+2])<<16 | uint32(b[i+3])<<24
@@ -284,6 +296,8 @@ func LE64(b []byte, i int) uint64 {
 	return uint64(b[i]) | uint64(b[i+1])<<8 | uint64(b[i+2])<<16 | uint64(b[i+3])<<24 |
 		uint64(b[i+4])<<32 | uint64(b[i+5])<<40 | uint64(b[i+6])<<48 | uint64(b[i+7])<<56
 }
+// sameArr: the two slices share their backing array.
+func sameArr(a, b []byte) bool { panic("spec") }
 // sameSlice: same backing array, offset and length.
 func sameSlice(a, b []byte) bool { panic("spec") }
 // oldbyte(s, i): the byte s[i] had on entry to the function under contract (two-state).
@@ -457,6 +471,40 @@ func collectLoops(body *ast.BlockStmt) []ast.Stmt {
 	return out
 }
 
+// resolveExtern: "pkg.Func" or "pkg.Type.Method" where pkg is the name of an imported package.
+func resolveExtern(p *packages.Package, cf *ContractFile, key string) (*types.Func, error) {
+	parts := strings.Split(key, ".")
+	if len(parts) < 2 {
+		return nil, fmt.Errorf("bad extern key %q", key)
+	}
+	var tp *types.Package
+	var find func(q *packages.Package, seen map[string]bool)
+	find = func(q *packages.Package, seen map[string]bool) {
+		for path, ip := range q.Imports {
+			if seen[path] || tp != nil {
+				continue
+			}
+			seen[path] = true
+			if ip.Name == parts[0] || path == parts[0] {
+				tp = ip.Types
+				return
+			}
+		}
+		for path, ip := range q.Imports {
+			_ = path
+			if tp == nil && len(seen) < 2000 {
+				find(ip, seen)
+			}
+		}
+	}
+	find(p, map[string]bool{})
+	if tp == nil {
+		return nil, fmt.Errorf("extern package %q is not imported", parts[0])
+	}
+	f, _, _, err := resolveFuncKey(tp, strings.Join(parts[1:], "."))
+	return f, err
+}
+
 func resolveFuncKey(tp *types.Package, key string) (*types.Func, *types.Named, string, error) {
 	parts := strings.Split(key, ".")
 	if len(parts) == 1 {
@@ -513,7 +561,15 @@ func (ld *Loaded) genStub(lp *LPkg) (string, error) {
 	for _, fc := range cf.Funcs {
 		n++
 		u := &FuncUnit{Pkg: lp, C: fc, Key: fc.Key, Loops: map[int]*LoopUnit{}, id: fmt.Sprintf("%d", n)}
-		obj, ifaceT, ifaceM, err := resolveFuncKey(p.Types, fc.Key)
+		var obj *types.Func
+		var ifaceT *types.Named
+		var ifaceM string
+		var err error
+		if fc.Extern {
+			obj, err = resolveExtern(p, cf, fc.Key)
+		} else {
+			obj, ifaceT, ifaceM, err = resolveFuncKey(p.Types, fc.Key)
+		}
 		if err != nil {
 			return "", fmt.Errorf("%s:%d: %v", cf.Path, fc.Line, err)
 		}
@@ -531,7 +587,7 @@ func (ld *Loaded) genStub(lp *LPkg) (string, error) {
 			}
 			u.ResNames = append(u.ResNames, nm)
 		}
-		if ifaceT == nil {
+		if ifaceT == nil && !fc.Extern {
 			u.Decl = findFuncDecl(p.Syntax, p.TypesInfo, obj)
 			if u.Decl == nil {
 				return "", fmt.Errorf("%s:%d: no declaration for %s", cf.Path, fc.Line, fc.Key)
@@ -707,6 +763,62 @@ func (ld *Loaded) genStub(lp *LPkg) (string, error) {
 			}
 			body.WriteString("\treturn\n}\n")
 		}
+		// point assertions
+		for k, ac := range fc.Asserts {
+			if u.Decl == nil {
+				continue
+			}
+			stmt, err := findStmt(ld.Fset, u.Decl.Body, ac.Anchor)
+			if err != nil {
+				return "", fmt.Errorf("%s:%d: contract drift: %s: %v", cf.Path, ac.Line, fc.Key, err)
+			}
+			au := &AssertUnit{C: ac, Stmt: stmt, Index: k}
+			u.Asserts = append(u.Asserts, au)
+			ps, ds := u.sigParams(qual, false)
+			for i := range ds {
+				ds[i] = strings.Replace(ds[i], " ...", " []", 1)
+			}
+			names := map[string]int{}
+			for i, sp := range ps {
+				names[sp.Name] = i
+			}
+			for i, o := range fc.Olds {
+				ps = append(ps, stubParam{Name: o.Name, Kind: "old", Index: i})
+				ds = append(ds, o.Name+" "+o.Type)
+				names[o.Name] = len(ps) - 1
+			}
+			scopePos := stmt.Pos()
+			if ac.When == "after" {
+				scopePos = stmt.End()
+			}
+			ids, err := freeIdents(ac.Clause.Expr)
+			if err != nil {
+				return "", fmt.Errorf("%s:%d: %v", cf.Path, ac.Line, err)
+			}
+			for _, id := range ids {
+				sc := p.Types.Scope().Innermost(scopePos)
+				if sc == nil {
+					continue
+				}
+				_, o := sc.LookupParent(id, scopePos)
+				v, ok := o.(*types.Var)
+				if !ok || v.Parent() == p.Types.Scope() || v.Parent() == types.Universe || v.IsField() {
+					continue
+				}
+				sp := stubParam{Name: id, Kind: "local", Local: LocalRef{Name: id, Pos: v.Pos(), Type: v.Type()}}
+				d := id + " " + types.TypeString(v.Type(), qual)
+				if i, ok := names[id]; ok {
+					ps[i] = sp
+					ds[i] = d
+				} else {
+					names[id] = len(ps)
+					ps = append(ps, sp)
+					ds = append(ds, d)
+				}
+			}
+			au.Params = ps
+			fmt.Fprintf(&body, "func _vcassert_%s_%d(%s) bool {\n\treturn %s // line %d\n}\n", u.id, k, strings.Join(ds, ", "), ac.Clause.Expr, ac.Line)
+		}
 	}
 	for i, l := range cf.Lemmas {
 		fmt.Fprintf(&body, "func _vclemma_%d() bool { return %s } // %s line %d\n", i, l.Expr, l.Name, l.Line)
@@ -730,6 +842,59 @@ func (ld *Loaded) genStub(lp *LPkg) (string, error) {
 		hdr.WriteString(")\n")
 	}
 	return hdr.String() + body.String(), nil
+}
+
+// findStmt locates the unique statement of body whose (whitespace-squeezed) source text starts
+// with anchor; "text#k" selects the k-th match.
+func findStmt(fset *token.FileSet, body *ast.BlockStmt, anchor string) (ast.Stmt, error) {
+	want := -1
+	if i := strings.LastIndex(anchor, "#"); i > 0 {
+		if n, err := strconv.Atoi(anchor[i+1:]); err == nil {
+			want = n
+			anchor = anchor[:i]
+		}
+	}
+	a := squeeze(anchor)
+	var found []ast.Stmt
+	ast.Inspect(body, func(n ast.Node) bool {
+		if _, ok := n.(*ast.FuncLit); ok {
+			return false
+		}
+		if s, ok := n.(ast.Stmt); ok {
+			if _, isBlock := s.(*ast.BlockStmt); !isBlock {
+				if strings.HasPrefix(squeeze(nodeText(fset, s)), a) {
+					found = append(found, s)
+				}
+			}
+		}
+		return true
+	})
+	// a statement and its own first sub-statement may both match (e.g. labeled); keep outermost of equal start
+	var uniq []ast.Stmt
+	for _, s := range found {
+		dup := false
+		for _, t := range uniq {
+			if t.Pos() == s.Pos() {
+				dup = true
+			}
+		}
+		if !dup {
+			uniq = append(uniq, s)
+		}
+	}
+	if want >= 0 {
+		if want < len(uniq) {
+			return uniq[want], nil
+		}
+		return nil, fmt.Errorf("statement %q#%d not found", anchor, want)
+	}
+	if len(uniq) == 0 {
+		return nil, fmt.Errorf("statement %q not found", anchor)
+	}
+	if len(uniq) > 1 {
+		return nil, fmt.Errorf("statement %q is ambiguous (%d matches; use #k)", anchor, len(uniq))
+	}
+	return uniq[0], nil
 }
 
 func squeeze(s string) string { return strings.Join(strings.Fields(s), " ") }
@@ -768,6 +933,12 @@ func (ld *Loaded) bind(lp *LPkg) error {
 	for _, u := range lp.Units {
 		if u.IfaceT != nil {
 			ld.Iface[lp.Path+"."+u.IfaceT.Obj().Name()+"."+u.IfaceM] = u
+		} else if u.C.Extern {
+			u.Fn = ld.Prog.FuncValue(u.Obj1)
+			if u.Fn == nil {
+				return fmt.Errorf("no SSA function for extern %s", u.Key)
+			}
+			ld.ByFn[u.Fn] = u
 		} else {
 			obj2, _, _, err := resolveFuncKey(lp.TPkg, u.Key)
 			if err != nil {
@@ -784,6 +955,9 @@ func (ld *Loaded) bind(lp *LPkg) error {
 		u.Post = lp.SPkg.Func("_vcpost_" + u.id)
 		for k, lu := range u.Loops {
 			lu.Fn = lp.SPkg.Func(fmt.Sprintf("_vcinv_%s_%d", u.id, k))
+		}
+		for _, au := range u.Asserts {
+			au.Fn = lp.SPkg.Func(fmt.Sprintf("_vcassert_%s_%d", u.id, au.Index))
 		}
 	}
 	for i, l := range lp.CF.Lemmas {
